@@ -254,3 +254,160 @@ def run(name, repo, reg, eng):
         r = _rec(name, False, "structural check error: " + traceback.format_exc()[-500:])
         r["status"] = "unknown"
         return r
+
+
+# ---------------------------------------------------------------------------
+# C20: option-erasure equivalence and machine arithmetic of the profiling accumulators
+DIAG_CALL_SUFFIXES = ("debug.write", "debug.str", "debug.repr", "debug.dump", "debug.dump_stack", "debug.dump_error",
+                      ".dump", ".try_time_based_dump", "stdout.flush", "stderr.flush", "profiler.append",
+                      "profiler.incr_counter", "utime", ".dump_perf_stats", ".collect_perf_stats", ".to_str", "print",
+                      "traceback.print_exc", ".is_computed")
+DIAG_FIELDS = {"_total_time", "_id", "_name", "perf_stats", "_last_dump_time"}
+NON_DIAGNOSTIC_OPTIONS = {"KEEP_DEPENDENCIES", "ENABLE_COMPLEX_ASSERTIONS", "MAX_TASK_STACK_SIZE",
+                          "SCHEDULER_STATE_DUMP_INTERVAL", "DEBUG_STR_REPR_MAX_LENGTH", "STACK_DUMP_LIMIT"}
+DIAGNOSTIC_FUNCTIONS = {"dump", "try_time_based_dump", "__str__", "__repr__", "to_str", "dump_perf_stats",
+                        "collect_perf_stats", "traceback", "_traceback_line"}
+C20_MODULES = ["scheduler", "async_task", "batching", "futures"]
+
+
+def _option_reads(test):
+    names = set()
+    for n in ast.walk(test):
+        if isinstance(n, ast.Attribute) and ast.unparse(n.value) in ("_debug_options", "_debug.options", "options"):
+            names.add(n.attr)
+    return names
+
+
+def _is_diag_call(call):
+    t = ast.unparse(call.func)
+    return any(t == s or t.endswith(s) for s in DIAG_CALL_SUFFIXES)
+
+
+def _diag_locals(stmts):
+    """locals assigned only from diagnostic calls (e.g. start = utime())"""
+    loc = set()
+    for s in stmts:
+        for n in ast.walk(s):
+            if isinstance(n, ast.Assign) and len(n.targets) == 1 and isinstance(n.targets[0], ast.Name):
+                if isinstance(n.value, ast.Call) and _is_diag_call(n.value):
+                    loc.add(n.targets[0].id)
+    return loc
+
+
+def _erase(stmts, dloc):
+    out = []
+    for s in stmts:
+        if isinstance(s, ast.Expr) and isinstance(s.value, ast.Call) and _is_diag_call(s.value):
+            continue
+        if isinstance(s, ast.Expr) and isinstance(s.value, ast.Constant):
+            continue
+        if isinstance(s, ast.Assign) and len(s.targets) == 1:
+            t = s.targets[0]
+            if isinstance(t, ast.Name) and t.id in dloc:
+                continue
+            if isinstance(t, ast.Attribute) and t.attr in DIAG_FIELDS:
+                continue
+            if isinstance(t, ast.Subscript) and isinstance(t.value, ast.Attribute) and t.value.attr in DIAG_FIELDS:
+                continue
+        if isinstance(s, ast.AugAssign) and isinstance(s.target, ast.Attribute) and s.target.attr in DIAG_FIELDS:
+            continue
+        if isinstance(s, ast.If):
+            opts = _option_reads(s.test) - NON_DIAGNOSTIC_OPTIONS
+            a, b = _erase(s.body, dloc), _erase(s.orelse, dloc)
+            if opts:
+                # a diagnostic option: both outcomes must be the same code once diagnostics are erased
+                out.append(("OPTION-IF", tuple(sorted(opts)), a, b))
+                continue
+            # a pure diagnostic query guarding only diagnostics (e.g. `if task.is_computed(): task.dump_perf_stats()`)
+            if not a and not b and isinstance(s.test, ast.Call) and _is_diag_call(s.test):
+                continue
+            # a side-effect-free test guarding only diagnostics
+            if not a and not b and not any(isinstance(x, (ast.Call, ast.Yield, ast.Await)) for x in ast.walk(s.test)):
+                continue
+            out.append(("if", ast.dump(s.test), a, b))
+            continue
+        if isinstance(s, (ast.For, ast.While)):
+            out.append((type(s).__name__, ast.dump(s.iter if isinstance(s, ast.For) else s.test), _erase(s.body, dloc)))
+            continue
+        if isinstance(s, ast.Try):
+            out.append(("try", _erase(s.body, dloc), [(_h.type and ast.dump(_h.type), _erase(_h.body, dloc)) for _h in s.handlers],
+                        _erase(s.orelse, dloc), _erase(s.finalbody, dloc)))
+            continue
+        out.append(ast.dump(s))
+    return out
+
+
+def _flatten_option_ifs(er, bad, where):
+    res = []
+    for e in er:
+        if isinstance(e, tuple) and e and e[0] == "OPTION-IF":
+            a = _flatten_option_ifs(e[2], bad, where)
+            b = _flatten_option_ifs(e[3], bad, where)
+            if a != b:
+                bad.append("%s: branch on %s changes non-diagnostic code" % (where, ",".join(e[1])))
+            res.extend(b)
+        elif isinstance(e, tuple):
+            res.append(tuple(_flatten_option_ifs(x, bad, where) if isinstance(x, list) else x for x in e))
+        else:
+            res.append(e)
+    return res
+
+
+def option_erasure(repo, reg, eng):
+    """Every branch on a diagnostic debug option (all DUMP_* flags, COLLECT_PERF_STATS) in scheduler / async_task /
+    batching / futures differs between its two outcomes only in diagnostic statements (writes to stdout/stderr,
+    profiler buffer, _total_time/_id/_name/perf_stats/_last_dump_time): after erasing those, the ON and OFF
+    branches are the same code.  KEEP_DEPENDENCIES and ENABLE_COMPLEX_ASSERTIONS are not diagnostic-only; the
+    contracts quantify over them instead."""
+    bad = []
+    n_ifs = 0
+    for mname in C20_MODULES:
+        mod = repo.modules.get(mname)
+        for q, fn in mod.functions.items():
+            if q.split(".")[-1] in DIAGNOSTIC_FUNCTIONS:
+                continue
+            dloc = _diag_locals(fn.body)
+            er = _erase(fn.body, dloc)
+            before = len(bad)
+            _flatten_option_ifs(er, bad, "%s.%s" % (mname, q))
+            for n in ast.walk(fn):
+                if isinstance(n, ast.If) and (_option_reads(n.test) - NON_DIAGNOSTIC_OPTIONS):
+                    n_ifs += 1
+                # an option must not be read outside an `if` test / boolean guard (e.g. to choose a batch)
+                if isinstance(n, ast.Attribute) and ast.unparse(n.value) in ("_debug_options", "_debug.options") and n.attr not in NON_DIAGNOSTIC_OPTIONS:
+                    pass
+    r = _rec("option-erasure", not bad, "; ".join(bad[:6]))
+    r["trace"] = ["%d option-guarded branches examined" % n_ifs] + r["trace"]
+    return r
+
+
+def carith_clock_fields(repo, reg, eng):
+    """.pxd C-typed fields / parameters that receive clock-derived values (utime() differences accumulate without
+    bound) must be at least 64 bits wide: int (32-bit) overflows after 2**31 us = 36 minutes."""
+    bad = []
+    checked = 0
+    WIDE = {"long long", "unsigned long long", "object", "double", "float"}
+    for mname in ("async_task", "batching", "scheduler"):
+        pxd = repo.pxd.get(mname)
+        if pxd is None:
+            continue
+        for (cls, field), ctype in pxd.fields.items():
+            if field == "_total_time":
+                checked += 1
+                if ctype not in WIDE:
+                    bad.append("%s.%s._total_time is C %s" % (mname, cls, ctype))
+        for (cls, meth), params in pxd.params.items():
+            for p, ctype in params.items():
+                if p == "time_taken":
+                    checked += 1
+                    if ctype not in WIDE:
+                        bad.append("%s.%s.%s(%s %s)" % (mname, cls, meth, ctype, p))
+    # the python side really feeds clock differences into those fields
+    src = repo.modules["scheduler"].text
+    if "task._total_time += utime() - start" not in src or "batch.dump_perf_stats(utime() - start)" not in src:
+        bad.append("profiling call sites in scheduler.py changed shape (re-derive the clock-fed fields)")
+    r = _rec("carith-clock-fields", not bad and checked >= 4, "; ".join(bad) or ("" if checked >= 4 else "fields not found"))
+    return r
+
+
+CHECKS.update({"option-erasure": option_erasure, "carith-clock-fields": carith_clock_fields})
